@@ -307,6 +307,8 @@ class Outcome:
     priority_conflicts: int  # properties with >= 2 specifiers at different priorities
     detail: str = ""
     may_refuse_projection: bool = False  # a modifying `on` whose region type cannot project
+    final_only_by_modifying_form: bool = False  # every specified final property is specified
+    # only by specifiers of a row that can modify (i.e. `on`)
 
 
 def resolve(sems: List[SpecSem], defaults: Dict[str, Merged], extra_finals=frozenset()) -> Outcome:
@@ -360,6 +362,8 @@ def resolve(sems: List[SpecSem], defaults: Dict[str, Merged], extra_finals=froze
             modifier[prop] = as_modifier[0][0]
 
     out = Outcome(frozenset(errors), winner, modifier, {}, shadowed_tie, top_tie, conflicts, "; ".join(detail))
+    spec_finals = [p for p in by_prop if p in finals]
+    out.final_only_by_modifying_form = bool(spec_finals) and all(sems[i].modifiable for p in spec_finals for i, _, _ in by_prop[p])
     if errors:
         return out
 
